@@ -576,7 +576,7 @@ pub fn parts() -> Vec<Box<dyn PartDyn>> {
     vec![Box::new(Part::<Case> {
         name: "batch",
         rule: "every ordered subset (size 1-4, containing at least one server close) of {server Connection.Close, server Channel.Close(A), channel-0 request, request on A, request on B} is enumerated, with request variants (open_channel auto/explicit, listen_for_connection_blocked, Connection::close; nowait publish, synchronous call, listener registration) rotated / generated; the I/O thread is parked inside the transport's write while the events are made pending in that order, so they arrive in one poll batch; oracle: no I/O-thread panic, Connection::close reports the server's close, and every racing request's return value equals its value in one of two serial reference executions on the same build (request before the close is visible / after it was processed); non-trivial = the cfg(amiquip_verif) batch trace shows the intended tokens in the intended order in one batch (>= 2 events); distinct by case hash",
-        cases: |t| t.pick(150, 3000),
+        cases: |t| t.pick(400, 6000),
         threads: 8,
         strategy: strat,
         exec,
